@@ -711,9 +711,9 @@ func runDisputeHistory(t *testing.T, seed int64) (string, map[string]int, string
 		roles := w.backersOf(rep)
 		if bond {
 			for k, v := range w.selectorsOf(proposer) {
-				if roles[k] == "" {
-					roles[k] = v
-				}
+				// also when the account backs the disputed reporter as well (a reporter disputing its own report, a shared
+				// selector): the second exception names it
+				roles[k] = v
 			}
 		}
 		nextParams = []*big.Int{bi(int64(b2i(bond)))}
